@@ -15,12 +15,12 @@ CLAIMED = {
         "explicit-state enumeration of all dates x step alphabet against a civil-calendar odometer model",
         "DESIGN.md 2/C01"),
     "C02": (
-        "Explicit-state exploration of the real conversion code: (a) every civil date (thorough: all 3,652,061; quick: the fixed windows + one seed-chosen window) with the transition 'next civil day' checked against the successor relation on lunar dates in model order, and the round trip civil->lunar->civil; (b) every lunation of lunar years 0..9999 x candidate days 0..31 for acceptance and lunar->civil->lunar, every non-existent leap month refused; (c) all ordered pairs from a lunation and the next two x days {1,2,15,last}^2 for before/after vs chronological order; LunarDay.next(n) on first/last days. Complete enumeration finds skipped/duplicated/mis-labelled days that no sample of conversions can. The quick tier also visits the first day, the day before it and the 15th day of every lunation of 0..9999.",
+        "Explicit-state exploration of the real conversion code: (a) every civil date (thorough: all 3,652,061; quick: the fixed windows + one seed-chosen window) with the transition 'next civil day' checked against the successor relation on lunar dates in model order, and the round trip civil->lunar->civil; (b) every lunation of lunar years 0..9999 x candidate days 0..31 for acceptance and lunar->civil->lunar, every non-existent leap month refused; (c) all ordered pairs from a lunation and the next two x days {1,2,15,last}^2 for before/after vs chronological order; LunarDay.next(n) on first/last days. Complete enumeration finds skipped/duplicated/mis-labelled days that no sample of conversions can. The quick tier also visits the first day, the day before it and the 15th day of every lunation of 0..9999. LunarHour::next over the day border from the first / last day of every lunation lands on the neighbouring lunar day.",
         "Trusted: civil odometer; the lunation table read through the public API and laid out in model order (the table itself is judged by C03/C04/C05). Known findings: the reform-era table defects (AD 8-9, 23-25, 239-240) listed in known_findings.json by exact input.",
         "explicit-state enumeration of all civil dates / all lunar dates with successor-relation and round-trip oracles",
         "DESIGN.md 2/C02"),
     "C03": (
-        "Explicit-state exploration over the complete chain of lunations of lunar years 0..9999 (123,684 states): every adjacent pair must abut (first day + length = next first day), lengths 29/30, memo answer = cache-free constructor, next(n) = chain position + n for a step alphabet (thorough: -14..14, +-25, +-100, +-1237), and per year the month list / count / leap position / day count / new-year distance. Per year also: LunarMonth::new(y, -m) is accepted iff m is the leap month. Both tiers enumerate the whole chain; one corrupted packed table character shifts one year and is seen as a gap/overlap.",
+        "Explicit-state exploration over the complete chain of lunations of lunar years 0..9999 (123,684 states): every adjacent pair must abut (first day + length = next first day), lengths 29/30, memo answer = cache-free constructor, next(n) = chain position + n for a step alphabet (thorough: -14..14, +-25, +-100, +-1237), and per year the month list / count / leap position / day count / new-year distance. Per year also: LunarMonth::new(y, -m) is accepted iff m is the leap month. Per month: the listed days carry the month's own label; a second (memoised) lookup keeps its position and successor. Both tiers enumerate the whole chain; one corrupted packed table character shifts one year and is seen as a gap/overlap.",
         "Trusted: model order of a lunar year (1..12, leap directly after its twin). Known findings: 4 boundary breaks + one 28-day month + 4 year spans of the AD 9-23 / 237-239 reform periods.",
         "explicit-state enumeration of the whole lunation chain with tiling invariants and step-alphabet conformance",
         "DESIGN.md 2/C03"),
@@ -35,7 +35,7 @@ CLAIMED = {
         "exhaustive enumeration of all terms/lunations of bounded eras against an independent ephemeris model + self-consistency sweeps",
         "DESIGN.md 2/C05"),
     "C13": (
-        "Every civil year 1..9999: 2 half-years, 4 seasons, 12 months, nesting both ways; every one of the 119,988 months lists exactly the odometer's dates of that month, each listed date's day-of-year equals its position in the year's lists, the lists sum to the year's day count. Every lunar year 0..9999: month list = lunation table slice; every lunation lists days 1..=len on consecutive civil days. Hour lists (LunarDay 13 slots, SixtyCycleDay 12 slots with pillars) on 4 x 400 consecutive days; sexagenary months of all Lichun-years (quick: windows) list exactly Jie day .. day before the next Jie. Listed parts point back to their container (get_solar_month, get_solar_year, get_lunar_year, get_lunar_month, get_sixty_cycle_month); lunar months have 29 or 30 days and their listed days convert back to themselves; the month of sexagenary year 0 and the hour lists of the first and last weeks of the range; each hour slot points back to its day's pillar.",
+        "Every civil year 1..9999: 2 half-years, 4 seasons, 12 months, nesting both ways; every one of the 119,988 months lists exactly the odometer's dates of that month, each listed date's day-of-year equals its position in the year's lists, the lists sum to the year's day count. Every lunar year 0..9999: month list = lunation table slice; every lunation lists days 1..=len on consecutive civil days. Hour lists (LunarDay 13 slots, SixtyCycleDay 12 slots with pillars) on 4 x 400 consecutive days; sexagenary months of all Lichun-years (quick: windows) list exactly Jie day .. day before the next Jie. Listed parts point back to their container (get_solar_month, get_solar_year, get_lunar_year, get_lunar_month, get_sixty_cycle_month); lunar months have 29 or 30 days and their listed days convert back to themselves; the month of sexagenary year 0 and the hour lists of the first and last weeks of the range; each hour slot points back to its day's pillar and equals the value built afresh at its instant.",
         "Oracles: odometer, lunation table (model order), the library's own Jie days.",
         "exhaustive enumeration of all containers with list-equals-model oracles",
         "DESIGN.md 2/C13"),
@@ -55,7 +55,7 @@ CLAIMED = {
         "exhaustive enumeration of birth-instant lattices x genders x strategies against a term-table + calendar-arithmetic model",
         "DESIGN.md 2/C16"),
     "C17": (
-        "Day series on every civil date of 1..9998 (thorough all, quick windows): day officer, twelve spirits (both routes), 28 mansions (both routes agree, luminary = weekday, advance by one across every adjacent pair), day nine star (accept-set where the two classical alignments disagree), six-day star incl. every leap-month day, moon phase, minor Ren; hour series (nine star, twelve spirits, minor Ren) on all 24 clock hours of 2000 days (quick 180); year star for all years -1..9999 (both year types), month star for every sexagenary month and every lunar month.",
+        "Day series on every civil date of 1..9998 (thorough all, quick windows): day officer, twelve spirits (both routes), 28 mansions (both routes agree, luminary = weekday, advance by one across every adjacent pair), day nine star (accept-set where the two classical alignments disagree), six-day star incl. every leap-month day, moon phase, minor Ren; hour series (nine star, twelve spirits, minor Ren) on all 24 clock hours of 2000 days (quick 180); each sexagenary month's star also through next(+-1), next(12) from its neighbours; year star for all years -1..9999 (both year types), month star for every sexagenary month and every lunar month.",
         "Known finding: the 160 reform-era dates (C02) inherit a wrong day pillar. At 23:00 the hour nine star may use either day's branch (the two hour views differ by convention); day nine star of civil year 1 needs the solstice of 1 BC.",
         "explicit-state enumeration of all dates/hours/years against recurrences typed from the classical rules",
         "DESIGN.md 2/C17"),
@@ -70,7 +70,7 @@ CLAIMED = {
         "complete enumeration of finite attribute tables against an independent encoding",
         "DESIGN.md 2/C19"),
     "C20": (
-        "Civil festivals: every civil date of 1900..2100 (quick 1925..2035) by date, every (year, index 0..11) with next(n), n in -25..25. Lunar festivals: every lunar year (quick: windows + 1925..2035) x indices 0..14: day vs the model (fixed lunar dates, Qingming / winter-solstice term days, New Year's Eve = last day of the year), the day's own lookup returns it or the earlier-listed one, next(n) for 11 step counts; every lunar date of 1900..2100 (quick 1990..2030) by date. Legal holidays: all records framed independently (13 chars): real date, strictly increasing, offset target is a rest day of the table, lookup returns exactly the record, membership of every civil date 2000..2030, next(n) for every n from two before the table start to two past its end (quick: 12 step counts incl. both ends), pair law. Festivals also jump to fixed far targets (|n| up to 130,000, both signs); holiday membership also of every date whose 8 digits occur anywhere in the packed table text and of the first / last day of every month of 0001..9999; festival kind (date / term / eve) and the term a term festival is tied to.",
+        "Civil festivals: every civil date of 1900..2100 (quick 1925..2035) by date, every (year, index 0..11) with next(n), n in -25..25. Lunar festivals: every lunar year (quick: windows + 1925..2035) x indices 0..14: day vs the model (fixed lunar dates, Qingming / winter-solstice term days, New Year's Eve = last day of the year), the day's own lookup returns it or the earlier-listed one, next(n) for 11 step counts; every lunar date of 1900..2100 (quick 1990..2030) by date. Legal holidays: all records framed independently (13 chars): real date, strictly increasing, offset target is a rest day of the table, lookup returns exactly the record, membership of every civil date 2000..2030, next(n) for every n from two before the table start to two past its end (quick: 12 step counts incl. both ends), pair law. Festivals also jump to fixed far targets (|n| up to 130,000, both signs); holiday membership also of every date whose 8 digits occur anywhere in the packed table text and of the first / last day of every month of 0001..9999; festival kind (date / term / eve) and the term a term festival is tied to; a holiday record reached by next(n) is the whole record (date, work flag, name).",
         "Lunar festivals of the reform-era years 7-26 / 235-241 are left to C02/C03.",
         "exhaustive enumeration of dates / indices / table records with independently framed records and table-derived festival dates",
         "DESIGN.md 2/C20"),
@@ -80,17 +80,17 @@ CLAIMED = {
         "explicit-state enumeration of all terms / dates / boundary instants against the global term sequence",
         "DESIGN.md 2/C06"),
     "C07": (
-        "Every civil date (thorough: all 3,652,061; quick: windows) x five routes: LunarDay pillar, SixtyCycleDay pillar, SolarDay/JulianDay/LunarDay weekday, compared with the closed forms (JDN+49) mod 60 and (JDN+1) mod 7 of the odometer's day number; since every date is compared with a function of the day number, every adjacent pair (month/year ends, 1582 cut-over, all lunar month boundaries) is covered. Also: the weekday of four instants inside each day, SixtyCycleDay::from_solar_day / LunarDay::get_sixty_cycle_day on every fifth date, (quick) every 11th date of the whole range, and a lunar day with filled views stepped by +-1 day.",
+        "Every civil date (thorough: all 3,652,061; quick: windows) x five routes: LunarDay pillar, SixtyCycleDay pillar, SolarDay/JulianDay/LunarDay weekday, compared with the closed forms (JDN+49) mod 60 and (JDN+1) mod 7 of the odometer's day number; since every date is compared with a function of the day number, every adjacent pair (month/year ends, 1582 cut-over, all lunar month boundaries) is covered. Also: the weekday of four instants inside each day, SixtyCycleDay::from_solar_day / LunarDay::get_sixty_cycle_day on every fifth date, (quick) every 11th date of the whole range, and a lunar day with filled views stepped by +-1 day, the sexagenary-day view stepped by +-1, +-14, 30 (every day of Sept/Oct 1582), a LunarHour stepped over midnight.",
         "Trusted: odometer JDN. Known finding: the 160 reform-era dates whose lunar label is wrong (C02) inherit a wrong pillar/weekday through the lunar routes.",
         "explicit-state enumeration of all dates x routes against closed forms of the day number",
         "DESIGN.md 2/C07"),
     "C08": (
-        "Day view: every civil date from the Lichun day of year 1 to 9998-12-31 (thorough all, quick windows): year pillar (Y-4) mod 60 with Y switching on the Lichun day, month branch counted from the Jie days of the library's term table, month stem by Five Tigers typed from the rhyme, index in year; on every Jie day the month object's first day / next / previous. Time view: all 119,976 Jie instants -1 s/+0/+1 s plus four hours of every window date. All sexagenary years -1..9999: year pillar, first month, 12 months by list and by index. Three further public routes (SixtyCycleDay::from_solar_day, LunarDay::get_sixty_cycle_day, the deprecated LunarDay / LunarHour getters, LunarHour::get_sixty_cycle_hour); month objects stepped by 19 step counts incl. negative multiples of 12; the quick tier visits every Jie day of all years and the day before; SixtyCycleMonth::from_index with indexes outside 0..=11; dates of sexagenary year 0 (0001-01-06..02-04) included.",
+        "Day view: every civil date from the Lichun day of year 1 to 9998-12-31 (thorough all, quick windows): year pillar (Y-4) mod 60 with Y switching on the Lichun day, month branch counted from the Jie days of the library's term table, month stem by Five Tigers typed from the rhyme, index in year; on every Jie day the month object's first day / next / previous. Time view: all 119,976 Jie instants -1 s/+0/+1 s plus four hours of every window date. All sexagenary years -1..9999: year pillar, first month, 12 months by list and by index. Three further public routes (SixtyCycleDay::from_solar_day, LunarDay::get_sixty_cycle_day, the deprecated LunarDay / LunarHour getters, LunarHour::get_sixty_cycle_hour); month objects stepped by 19 step counts incl. negative multiples of 12; the quick tier visits every Jie day of all years and the day before; SixtyCycleMonth::from_index with indexes outside 0..=11; dates of sexagenary year 0 (0001-01-06..02-04) included; the 12 hour slots listed on every Jie day carry the pillars of their own instants.",
         "Jie days/instants are the library's own (C05/C06 judge them).",
         "explicit-state enumeration of all dates / all Jie boundary instants against term-table + pillar algebra model",
         "DESIGN.md 2/C08"),
     "C09": (
-        "(a) 3 eras x 60 consecutive days x 24 hours x 2 clock times: hour branch/stem (Five Rats from the day the hour belongs to), index in day, 23:00 day roll, default and LunarSect2 providers; (b) every hour of every date of the windows: eight characters = year, month, day(+1 at 23h), hour pillars from the model; (c) inverse search on every double-hour of every day of fully enumerated years (quick 1 year x 2 ranges; thorough 5 eras x 2 years x 9 ranges [y-60k, y+60k']): every returned instant recomputes to the same characters, and a double-hour containing no Jie instant contains at least one returned instant. Also Jie-instant probes, the deprecated LunarHour getters on every fifth hour, stepping of a LunarHour whose lazy views are filled, searches for characters that never occur, January windows of the eras whose Xiaohan falls in December, the late Zi hour of 31 December against ranges ending in that year, the deprecated EightChar::get_duty, every hour of every 577th (quick) / 7th (thorough) date of the whole range.",
+        "(a) 3 eras x 60 consecutive days x 24 hours x 2 clock times: hour branch/stem (Five Rats from the day the hour belongs to), index in day, 23:00 day roll, default and LunarSect2 providers; (b) every hour of every date of the windows: eight characters = year, month, day(+1 at 23h), hour pillars from the model; (c) inverse search on every double-hour of every day of fully enumerated years (quick 1 year x 2 ranges; thorough 5 eras x 2 years x 9 ranges [y-60k, y+60k']): every returned instant recomputes to the same characters, and a double-hour containing no Jie instant contains at least one returned instant. Also Jie-instant probes, the deprecated LunarHour getters on every fifth hour, stepping of a LunarHour whose lazy views are filled, searches for characters that never occur, January windows of the eras whose Xiaohan falls in December, the late Zi hour of 31 December against ranges ending in that year, the deprecated EightChar::get_duty, the hour lists of both day objects (every third date and every Jie day), every hour of every 577th (quick) / 7th (thorough) date of the whole range.",
         "Double-hours containing a Jie instant are skipped as the property states. Known finding: instants of the 160 reform-era dates (C02) inherit the wrong lunar day.",
         "explicit-state enumeration of hour lattices and exhaustive inverse-search conformance on enumerated day windows",
         "DESIGN.md 2/C09"),
@@ -100,7 +100,7 @@ CLAIMED = {
         "exhaustive enumeration of cycle elements x step-count pairs against Z/size; ordinal-model conformance for linear units",
         "DESIGN.md 2/C11"),
     "C12": (
-        "Instant lattice {00:00:00, 00:00:01, 11:59:59, 12:00:00, 23:59:58, 23:59:59} of every civil day (thorough) or of month-boundary days of the windows, of every 25th year and Sept/Oct 1582 (quick) x next(n) for 31 step sizes up to +-10^9 s, subtract, before/after; instant -> Julian date -> instant for those and for every second of 6 chosen days; fractional Julian dates +-1 s in 0.1 s steps around hh:59:59 carry points (all 24 on boundary days, 3 on other days) must give a valid instant within 0.5 s. JulianDay::get_solar_day of those fractional dates must name the containing day or the day of the rounded instant.",
+        "Instant lattice {00:00:00, 00:00:01, 11:59:59, 12:00:00, 23:59:58, 23:59:59} of every civil day (thorough) or of month-boundary days of the windows, of every 25th year and Sept/Oct 1582 (quick) x next(n) for 31 step sizes up to +-10^9 s, subtract, before/after; instant -> Julian date -> instant for those and for every second of 6 chosen days; fractional Julian dates +-1 s in 0.1 s steps around hh:59:59 carry points (all 24 on boundary days, 3 on other days) must give a valid instant within 0.5 s. JulianDay::get_solar_day of those fractional dates must name the containing day or the day of the rounded instant; the Julian date stepped by whole days converts to the instant that many days later.",
         "Oracle: instant ordinal = 86400 * odometer day + second of day. 'Random instants' of the property are replaced by these fully enumerated lattices.",
         "explicit-state enumeration of an instant lattice x step alphabet against an instant-ordinal model",
         "DESIGN.md 2/C12"),
